@@ -93,8 +93,9 @@ CLAIMED["C17"] = ("Partial proof of the reseed discipline, for every state and e
 
 CLAIMED["C09"] = ("Partial proof, of the strict-decoding clause only: for every byte string, G1/G2/GT Unmarshal and the compressed G1/G2 decoders return without panicking and accept only if every "
  "32-byte coordinate has a big-endian value below the field prime (canonical encoding), returning exactly the rest of the input (found and fixed D7: G1 ignored the coordinate errors); lessThanP, the range test behind every coordinate decoder, returns 1 exactly when the four limbs read as one 256-bit integer are below the prime in p2 "
- "(borrow chain over all four limbs, math/bits.Sub64 modelled arithmetically). "
- "Not decided and not attempted: group laws, scalar multiplication, bilinearity and non-degeneracy of the pairing, the on-curve and subgroup checks, re-encoding equality - all of them 256-bit "
+ "(borrow chain over all four limbs, math/bits.Sub64 modelled arithmetically); the two G1 decoders succeed only after the curve test accepted the decoded point or, for the infinity encoding, after both coordinates compared equal to zero "
+ "(the curve test itself is assumed). "
+ "Not decided and not attempted: group laws, scalar multiplication, bilinearity and non-degeneracy of the pairing, the curve equation test itself and the G2/GT membership checks, re-encoding equality - all of them 256-bit "
  "nonlinear field arithmetic outside what SMT-discharged verification conditions reach.",
  "Trusted: gfP.Unmarshal (error exactly for values >= p: its limb loading and its use of lessThanP are assumed), gfP.Set, math/bits.Sub64; every field/curve operation in the decoders is havocked (nothing assumed, nothing proved about it).",
  "DESIGN.md §0.2, §4 C09")
